@@ -39,7 +39,9 @@ RULE = (
     "reverse, random permutations) x (MDA class: Jacobi, Gauss-Seidel, Newton-Raphson, quasi-Newton with each SciPy "
     "method, GS-Newton, MDASequential of two solvers, MDAChain with each inner MDA) x (acceleration method, "
     "over-relaxation factor, residual scaling, tolerance, Newton linear solver and matrix type, sparse Jacobians, "
-    "starting point zero / random / close to the solution, warm start or plain re-execution at a nearby input); a case "
+    "starting point zero / random / close to the solution, warm start or plain re-execution at a nearby input, tolerance / "
+    "max_mda_iter given loosely to the constructor and re-assigned through .settings before the first or the second "
+    "execution); a case "
     "is distinct by that tuple (matrix coefficients and input values excluded) and non-trivial when the system has at "
     "least one coupling read by a discipline"
 )
@@ -87,7 +89,13 @@ _MIN_QUICK = {
     "warm_start_second_executions": 250, "plain_second_executions": 180, "small_scale_cases": 250,
     "twin_discipline_reexecutions": 3000, "expected_refusals": 40,
     "cases:MDAChain": 500, "cases:MDAGSNewton": 70, "cases:MDAGaussSeidel": 250, "cases:MDAJacobi": 250,
-    "cases:MDANewtonRaphson": 100, "cases:MDAQuasiNewton": 60, "cases:MDASequential": 120,
+    "cases:MDANewtonRaphson": 100, "cases:MDAQuasiNewton": 55, "cases:MDASequential": 120,
+    # settings re-assigned after construction, judged against the settings in force at execute time
+    "settings_reassigned_after_construction": 340, "settings_reassigned:MDAChain": 180,
+    "settings_reassigned:MDAGSNewton": 15, "settings_reassigned:MDASequential": 45,
+    "settings_reassigned:elementary-solver": 90, "settings_reassigned:tolerance": 260,
+    "settings_reassigned:max_mda_iter": 160, "settings_reassigned_before_first_execution": 240,
+    "settings_reassigned_before_second_execution": 95,
 }
 MIN_COUNTERS = {
     "quick": dict(_MIN_QUICK),
@@ -154,21 +162,27 @@ def _classes():
                                     MDAQuasiNewton, MDASequential)}
 
 
-def build_mda(case, system):
-    """Instantiate the MDA of ``case`` on fresh disciplines."""
+def build_mda(case, system, tol_build=None, max_iter_build=None):
+    """Instantiate the MDA of ``case`` on fresh disciplines.
+
+    ``tol_build`` / ``max_iter_build``: the values given to the constructor when the case re-assigns these settings
+    afterwards (see ``apply_settings``); by default the values of the case.
+    """
     from gemseo.core.derivatives.jacobian_assembly import JacobianAssembly
 
     cls = _classes()
     cfg = case["cfg"]
     defaults = {k: np.array(v, dtype=float) for k, v in case["defaults"].items()}
     discs = system.make_disciplines(order=case["order"], sparse=case.get("sparse", False), defaults=defaults)
-    common = {"tolerance": case["tol"], "max_mda_iter": MAX_ITER}
+    tol_build = case["tol"] if tol_build is None else tol_build
+    max_iter_build = MAX_ITER if max_iter_build is None else max_iter_build
+    common = {"tolerance": tol_build, "max_mda_iter": max_iter_build}
     if cfg["cls"] == "MDASequential":
         subs = []
         for sub in cfg["seq"]:
             kw = dict(sub["settings"])
-            kw.setdefault("max_mda_iter", MAX_ITER)
-            subs.append(cls[sub["cls"]](discs, tolerance=case["tol"], **kw))
+            kw["max_mda_iter"] = min(int(kw.get("max_mda_iter", MAX_ITER)), max_iter_build)
+            subs.append(cls[sub["cls"]](discs, tolerance=tol_build, **kw))
         mda = cls["MDASequential"](discs, subs, **common)
     else:
         mda = cls[cfg["cls"]](discs, **common, **cfg["settings"])
@@ -179,6 +193,26 @@ def build_mda(case, system):
         for leaf in leaves(mda):
             leaf.matrix_type = jt
     return mda, discs
+
+
+def apply_settings(mda, cfg, tol=None, max_iter=None):
+    """Re-assign settings on an existing MDA through the documented route.
+
+    MDAChain and MDAGSNewton document ``tolerance`` and ``max_mda_iter`` as cascaded to their inner MDAs
+    (``_settings_names_to_be_cascaded``), so only the outer settings are assigned.  A plain MDASequential cascades
+    nothing: the user assigns the settings of every MDA of the sequence (each keeps its own iteration cap).  An
+    elementary solver reads its own settings at execution time.
+    """
+    if cfg["cls"] == "MDASequential":
+        for sub_cfg, sub in zip(cfg["seq"], mda.mda_sequence):
+            if tol is not None:
+                sub.settings.tolerance = tol
+            if max_iter is not None:
+                sub.settings.max_mda_iter = min(int(sub_cfg["settings"].get("max_mda_iter", MAX_ITER)), max_iter)
+    if max_iter is not None:
+        mda.settings.max_mda_iter = max_iter
+    if tol is not None:
+        mda.settings.tolerance = tol
 
 
 def leaves(mda):
@@ -244,7 +278,7 @@ def relaxed_rate(L, omega, nonstrong_extra=0):
     return math.sqrt(min(1.0, (omega + abs(1.0 - omega)) * L)) if (omega + abs(1.0 - omega)) * L < 1 else 1.0
 
 
-def leaf_guaranteed(cls_name, settings, system, tol):
+def leaf_guaranteed(cls_name, settings, system, tol, max_iter=MAX_ITER):
     accel = settings.get("acceleration_method", "NoTransformation")
     omega = float(settings.get("over_relaxation_factor", 1.0))
     L = system.spec["L"]
@@ -255,9 +289,9 @@ def leaf_guaranteed(cls_name, settings, system, tol):
         if rho >= 1.0:
             return False
         need = math.log(tol * 1e-3) / math.log(rho) + 2 * len(system.discs) + 5
-        return need <= 0.8 * min(MAX_ITER, int(settings.get("max_mda_iter", MAX_ITER)))
+        return need <= 0.8 * min(max_iter, int(settings.get("max_mda_iter", max_iter)))
     if cls_name == "MDANewtonRaphson":
-        return (not system.nonlinear) and accel == "NoTransformation" and omega == 1.0
+        return (not system.nonlinear) and accel == "NoTransformation" and omega == 1.0 and max_iter >= 5
     return False
 
 
@@ -272,31 +306,32 @@ def leaf_safe(cls_name, settings, system):
     return False
 
 
-def sequence_guaranteed(seq, system, tol):
+def sequence_guaranteed(seq, system, tol, max_iter=MAX_ITER):
     """``seq``: list of (class name, settings).  The first guaranteed solver must be reached through safe ones."""
     for cls_name, settings in seq:
-        if leaf_guaranteed(cls_name, settings, system, tol):
+        if leaf_guaranteed(cls_name, settings, system, tol, max_iter):
             return True
         if not leaf_safe(cls_name, settings, system):
             return False
     return False
 
 
-def guaranteed(cfg, system, tol):
+def guaranteed(cfg, system, tol, max_iter=MAX_ITER):
     c = cfg["cls"]
     if c in FIXED_POINT or c == "MDANewtonRaphson":
-        return leaf_guaranteed(c, cfg["settings"], system, tol)
+        return leaf_guaranteed(c, cfg["settings"], system, tol, max_iter)
     if c == "MDAGSNewton":
         return sequence_guaranteed([("MDAGaussSeidel", cfg["settings"].get("gauss_seidel_settings", {})),
-                                    ("MDANewtonRaphson", cfg["settings"].get("newton_settings", {}))], system, tol)
+                                    ("MDANewtonRaphson", cfg["settings"].get("newton_settings", {}))], system, tol,
+                                   max_iter)
     if c == "MDASequential":
-        return sequence_guaranteed([(s["cls"], s["settings"]) for s in cfg["seq"]], system, tol)
+        return sequence_guaranteed([(s["cls"], s["settings"]) for s in cfg["seq"]], system, tol, max_iter)
     if c == "MDAChain":
         inner = cfg["settings"].get("inner_mda_name", "MDAJacobi")
         ist = cfg["settings"].get("inner_mda_settings", {})
         if inner == "MDAGSNewton":
-            return sequence_guaranteed([("MDAGaussSeidel", {}), ("MDANewtonRaphson", {})], system, tol)
-        return leaf_guaranteed(inner, ist, system, tol)
+            return sequence_guaranteed([("MDAGaussSeidel", {}), ("MDANewtonRaphson", {})], system, tol, max_iter)
+        return leaf_guaranteed(inner, ist, system, tol, max_iter)
     return False
 
 
@@ -347,6 +382,10 @@ def features(case, system):
         f.append("scaling=" + cfg["scaling"])
     if cfg.get("matrix_type") == "linear_operator":
         f.append("linop")
+    re_ = case.get("reassign")
+    if re_:
+        f.append("settings-reassigned-" + re_["when"].replace("_", "-") + "="
+                 + "&".join(k for k in ("tolerance", "max_mda_iter") if re_.get(k) is not None))
     return "+".join(sorted(set(f))) or "plain"
 
 
@@ -400,12 +439,16 @@ def run_case(case, rep, *, quiet=False, count=True):
     cfg = case["cfg"]
     label = class_label(cfg)
     feat = features(case, system)
-    tol = case["tol"]
+    tol_final = case["tol"]
     in_cycles = cs.all_in_cycles(system)
+    # settings given to the constructor vs settings in force at execution time (the oracle uses the latter)
+    re_ = case.get("reassign") or {}
+    tol_build = re_["tolerance"] if re_.get("tolerance") is not None else tol_final
+    mi_build = re_["max_mda_iter"] if re_.get("max_mda_iter") is not None else MAX_ITER
 
     # ---- construction (documented domain)
     try:
-        mda, discs = build_mda(case, system)
+        mda, discs = build_mda(case, system, tol_build, mi_build)
     except ValueError as e:
         msg = str(e)
         refusing = cfg["cls"] in ("MDANewtonRaphson", "MDAGSNewton") or (
@@ -430,8 +473,32 @@ def run_case(case, rep, *, quiet=False, count=True):
     runs = [case["inputs"]] + ([case["inputs2"]] if case.get("inputs2") else [])
     data0 = {nm: np.array(case["defaults"].get(nm, np.zeros(system.sizes[nm])), dtype=float) for nm in system.couplings}
     N, cap = None, None
-    pair_ok = guaranteed(cfg, system, tol)
+    tol, max_iter = tol_build, mi_build  # in force
     for k, inputs in enumerate(runs):
+        if re_ and ((k == 0 and re_["when"] == "before_first") or (k == 1 and re_["when"] == "before_second")):
+            try:
+                apply_settings(mda, cfg, tol_final if re_.get("tolerance") is not None else None,
+                               MAX_ITER if re_.get("max_mda_iter") is not None else None)
+            except Exception as e:
+                rep.violation(f"C06:{label}:settings-assignment-exception:{type(e).__name__}", "settings can be re-assigned",
+                              case, observed=f"{type(e).__name__}: {e}", expected="assignment accepted")
+                return "violated"
+            tol, max_iter = tol_final, MAX_ITER
+            if count:
+                rep.count("settings_reassigned_after_construction")
+                rep.count("settings_reassigned:" + (cfg["cls"] if cfg["cls"] in ("MDAChain", "MDAGSNewton", "MDASequential")
+                                                     else "elementary-solver"))
+                rep.count("settings_reassigned_" + re_["when"] + "_execution")
+                for nm_ in ("tolerance", "max_mda_iter"):
+                    if re_.get(nm_) is not None:
+                        rep.count("settings_reassigned:" + nm_)
+                # non-verdict monitor: what the elementary solvers hold after the assignment
+                for leaf in leaves(mda):
+                    if re_.get("tolerance") is not None and leaf.settings.tolerance != tol_final:
+                        rep.observe("inner-solver-tolerance-differs-from-reassigned-value",
+                                    {"cls": cfg["cls"], "leaf": type(leaf).__name__, "leaf_tolerance": leaf.settings.tolerance,
+                                     "assigned": tol_final})
+        pair_ok = guaranteed(cfg, system, tol, max_iter)
         inp = {nm: np.array(v, dtype=float) for nm, v in inputs.items()}
         sol = system.solve(inp)
         if k == 0:
@@ -549,7 +616,7 @@ def run_case(case, rep, *, quiet=False, count=True):
         # ---- non-verdict monitor: a plain re-execution behaves like a fresh instance (outside the statement, which
         # allows the number of iterations to change; recorded because a transformer state leaking from one execution
         # to the next is invisible in the solution)
-        if (count and k == 1 and not _warm(cfg) and cfg["cls"] in FIXED_POINT and "accel" in feat
+        if (count and k == 1 and not re_ and not _warm(cfg) and cfg["cls"] in FIXED_POINT and "accel" in feat
                 and cfg.get("scaling") in ("no_scaling", "n_coupling_variables") and claims):
             fresh_case = dict(case, inputs=case["inputs2"])
             fresh_case.pop("inputs2")
@@ -860,6 +927,19 @@ def gen_cases_for_system(rng, n_orders, n_cfg):
             tol = float(rng.choice([1e-8, 1e-10, 1e-10, 1e-12])) if kind != "close" else float(rng.choice([1e-6, 1e-8]))
             case = {"spec": spec, "inputs": inputs, "order": order, "cfg": cfg, "tol": tol, "start": kind,
                     "defaults": defaults, "sparse": bool(rng.random() < 0.15), "twin": bool(rng.random() < 0.2)}
+            # settings re-assigned after construction (before the first or the second execution)
+            p_re = 0.35 if cfg["cls"] in ("MDAChain", "MDAGSNewton", "MDASequential") else 0.15
+            if rng.random() < p_re:
+                re_ = {"when": "before_first" if rng.random() < 0.7 else "before_second", "tolerance": None,
+                       "max_mda_iter": None}
+                which = int(rng.integers(3))
+                if which != 1 or re_["when"] == "before_second":
+                    re_["tolerance"] = float(rng.choice([1e-1, 1e-2, 1e-3]))
+                if which != 0 and re_["when"] == "before_first":
+                    re_["max_mda_iter"] = int(rng.choice([1, 2, 3, 5]))
+                if re_["when"] == "before_second":
+                    cfg["second"] = True
+                case["reassign"] = re_
             if cfg.get("second"):
                 case["inputs2"] = {k: (np.array(v) + np.round(rng.uniform(-0.05, 0.05, len(v)), 4)).tolist()
                                    for k, v in inputs.items()}
@@ -877,7 +957,7 @@ def case_signature(case, system):
             tuple(system.sizes[nm] for nm in system.couplings), okind, bool(cs.edges_against_order(system, order)),
             class_label(cfg), repr(sorted(_flat(cfg.get("settings", {})))), repr([sorted(_flat(s["settings"])) for s in cfg.get("seq", [])]),
             cfg.get("scaling"), cfg.get("matrix_type"), case["tol"], case["start"], bool(case.get("inputs2")),
-            case.get("sparse", False))
+            case.get("sparse", False), repr(sorted((case.get("reassign") or {}).items())))
 
 
 def _flat(d, prefix=""):
@@ -989,6 +1069,40 @@ def directed_cases():
             ist = {"n_processes": 1, "method": meth, "use_gradient": grad}
             add(spec, [0, 1], {"cls": "MDAChain", "settings": {"inner_mda_name": "MDAQuasiNewton", "n_processes": 1,
                                                               "inner_mda_settings": ist}}, tol=1e-12, inputs=inputs)
+    # (j) settings given loosely to the constructor and re-assigned before the first / the second execution; the
+    # composed MDAs must hand the new values to their inner solvers (documented cascade)
+    x2b = {"x": [1.45]}
+    re_variants = [
+        {"when": "before_first", "tolerance": 1e-2, "max_mda_iter": 5},
+        {"when": "before_first", "tolerance": 1e-2, "max_mda_iter": None},
+        {"when": "before_first", "tolerance": None, "max_mda_iter": 3},
+        {"when": "before_second", "tolerance": 1e-2, "max_mda_iter": None},
+    ]
+    re_cfgs = [
+        {"cls": "MDAChain", "settings": {"inner_mda_name": "MDAGaussSeidel", "n_processes": 1}},
+        {"cls": "MDAChain", "settings": {"inner_mda_name": "MDAJacobi", "n_processes": 1,
+                                         "inner_mda_settings": {"n_processes": 1}}},
+        {"cls": "MDAChain", "settings": {"inner_mda_name": "MDANewtonRaphson", "n_processes": 1,
+                                         "inner_mda_settings": {"n_processes": 1}}},
+        {"cls": "MDAChain", "settings": {"inner_mda_name": "MDAQuasiNewton", "n_processes": 1,
+                                         "inner_mda_settings": {"n_processes": 1, "method": "broyden1"}}},
+        {"cls": "MDAChain", "settings": {"inner_mda_name": "MDAGSNewton", "n_processes": 1}},
+        {"cls": "MDASequential", "settings": {}, "seq": [{"cls": "MDAGaussSeidel", "settings": {"max_mda_iter": 2}},
+                                                         {"cls": "MDAJacobi", "settings": {"n_processes": 1}}]},
+        {"cls": "MDAGaussSeidel", "settings": {}},
+        {"cls": "MDAJacobi", "settings": {"n_processes": 1}},
+        {"cls": "MDAGSNewton", "settings": {"newton_settings": {"n_processes": 1}}},
+        {"cls": "MDANewtonRaphson", "settings": {"n_processes": 1}},
+    ]
+    for spec, cfgs in ((twoc, re_cfgs), (mixed, re_cfgs[:8])):
+        for cfg in cfgs:
+            for rv in re_variants:
+                c = copy.deepcopy(cfg)
+                kw = {"reassign": dict(rv)}
+                if rv["when"] == "before_second":
+                    c["second"] = True
+                    kw["inputs2"] = x2b
+                add(spec, [0, 1, 2, 3], c, **kw)
     # (f) acceleration x relaxation on the fixed-point solvers, executed twice on the same instance
     x2 = {"x": [1.45]}
     for acc in ACCELERATIONS:
@@ -1034,6 +1148,8 @@ def execute_case(case, rep, sample=False):
         rep.count("cases_with_relaxation")
     if case["order"] != list(range(case["spec"]["n"])):
         rep.count("cases_with_permuted_list")
+    if case.get("reassign"):
+        rep.count("cases_with_settings_reassigned_after_construction")
     if sample:
         rep.sample({"kind": case["spec"]["kind"], "n": case["spec"]["n"], "nonlinear": case["spec"]["nonlinear"],
                     "L": case["spec"]["L"], "order": case["order"], "cfg": cfg, "tol": case["tol"],
